@@ -1,12 +1,87 @@
-(* C05 - Canonicalization produces the unique RFC 8785 (JCS) form.  (theorems to be extended) *)
-From Coq Require Import NArith String List Bool.
-From Sidetree Require Import Json.Json Json.Utf Json.Es6 Json.Jcs Json.Parse.
+(* C05 - Canonicalization produces the unique RFC 8785 (JCS) form.
+
+   Proved for every JSON tree (strings and member names arbitrary byte strings, arbitrary
+   nesting): members come out strictly increasing in UTF-16 code-unit order and are a
+   permutation of the input members; two names with the same UTF-16 image are refused; the
+   output does not depend on member order at any depth; the output parses back to the same
+   value (so it "denotes the same JSON value"), is a fixed point of Transform, and two values
+   with the same canonical bytes are the same value.  The last three are stated for trees whose
+   number tokens are canonical ([wfnum]); that ES6 number layout maps every literal of the
+   exact class to such a token is checked by correspondence (numbers: strconv oracle), not
+   proved: C05_number_tokens_partial states what is missing. *)
+From Coq Require Import NArith String Ascii List Bool Sorting.Sorted Sorting.Permutation.
+From Sidetree Require Import Json.Json Json.Utf Json.Es6 Json.Jcs Json.Parse Json.JcsProps Json.JcsRoundTrip.
 Import ListNotations.
 Open Scope string_scope.
 
+(* members ordered by UTF-16 code units, each exactly once *)
+Theorem C05_members_sorted m out :
+  jcs (JObj m) = Some out ->
+  exists es sorted, entries_of m = Some es /\ StronglySorted elt sorted /\ Permutation es sorted /\
+                    out = "{" ++ join "," (map print_entry sorted) ++ "}".
+Proof. exact (jcs_obj_sorted m out). Qed.
+Print Assumptions C05_members_sorted.
+
+Theorem C05_order_is_strict_total a b :
+  (units_cmp a b = Eq <-> a = b) /\ units_cmp b a = CompOpp (units_cmp a b) /\
+  (forall c, units_cmp a b = Lt -> units_cmp b c = Lt -> units_cmp a c = Lt).
+Proof. exact (conj (units_cmp_eq a b) (conj (units_cmp_antisym a b) (units_cmp_lt_trans a b))). Qed.
+Print Assumptions C05_order_is_strict_total.
+
+Theorem C05_duplicate_names_refused m out : jcs (JObj m) = Some out -> NoDup (map (fun kv => sort_key (fst kv)) m).
+Proof. exact (jcs_obj_distinct_names m out). Qed.
+Print Assumptions C05_duplicate_names_refused.
+
+(* byte-identical for all member orders, at every depth *)
+Theorem C05_same_value_same_bytes a b : jequiv a b -> jcs a = jcs b.
+Proof. exact (jcs_canonical a b). Qed.
+Print Assumptions C05_same_value_same_bytes.
+
+Theorem C05_member_order_irrelevant m1 m2 out : Permutation m1 m2 -> jcs (JObj m1) = Some out -> jcs (JObj m2) = Some out.
+Proof. exact (jcs_member_order m1 m2 out). Qed.
+Print Assumptions C05_member_order_irrelevant.
+
+(* the output denotes the input value *)
+Theorem C05_output_denotes_input v out : jcs v = Some out -> wfnum v -> exists v', parse_json out = Some v' /\ jequiv v v' /\ wfnum v'.
+Proof. exact (jcs_parse_roundtrip v out). Qed.
+Print Assumptions C05_output_denotes_input.
+
+(* the output is a fixed point of canonicalization *)
+Theorem C05_fixed_point v out : jcs v = Some out -> wfnum v -> is_container v = true -> transform out = TOk out.
+Proof. exact (transform_fixed_point v out). Qed.
+Print Assumptions C05_fixed_point.
+
+(* equal bytes only for equal values *)
+Theorem C05_same_bytes_same_value a b out : jcs a = Some out -> jcs b = Some out -> wfnum a -> wfnum b -> jequiv a b.
+Proof. exact (jcs_injective a b out). Qed.
+Print Assumptions C05_same_bytes_same_value.
+
+(* every string round-trips through its minimal escaping *)
+Theorem C05_string_escaping_roundtrip s rest :
+  parse_string_body (String.length (escape_body s ++ String """" rest) + 1) (escape_body s ++ String """" rest) = Some (s, rest).
+Proof. exact (quote_parse s rest). Qed.
+Print Assumptions C05_string_escaping_roundtrip.
+
+(* PARTIAL.  Full statement wanted: forall t t', es6_normalise t = Some t' -> canon_tok t' = true
+   (every token the number layout emits is canonical, hence Transform is idempotent on every
+   input of the model's domain).  Proved here only on the vectors below; the general statement
+   rests on the correspondence stream (double stream against strconv + MarshalCanonical). *)
+Example C05_number_tokens_partial :
+  forallb (fun t => match es6_normalise t with Some t' => canon_tok t' | None => false end)
+    ["1E21"; "123456789012345000000"; "0.000001"; "0.0000001"; "-0"; "1.50"; "100"; "12.5e-1"; "-123456.789e3";
+     "1e-7"; "123e20"; "5e-300"; "1.7e307"; "0.1"; "-1"; "10"; "999999999999999"; "1e21"; "1e20"] = true.
+Proof. vm_compute. reflexivity. Qed.
+
+(* non-vacuity: a tree with canonical numbers whose canonical form is not its input order *)
+Example C05_example :
+  let v := JObj [("b", JNum "1.5"); ("a", JArr [JNum "1e+21"; JNum "-0.000001"; JStr "x"])] in
+  wfnum v /\ jcs v = Some "{""a"":[1e+21,-0.000001,""x""],""b"":1.5}" /\
+  transform "{""a"":[1e+21,-0.000001,""x""],""b"":1.5}" = TOk "{""a"":[1e+21,-0.000001,""x""],""b"":1.5}".
+Proof. split; [repeat constructor|]. vm_compute. split; reflexivity. Qed.
+
 (* Concrete anchor: the RFC 8785 sorting example keys order by UTF-16 code units. *)
 Example C05_transform_vectors :
-  transform "{""€"":""Euro Sign"",""\r"":""Carriage Return"",""דּ"":""Hebrew"",""1"":""One"",""😀"":""Emoji"",""\u0080"":""Control"",""ö"":""Latin""}"
-  = transform "{""\r"":""Carriage Return"",""1"":""One"",""\u0080"":""Control"",""ö"":""Latin"",""€"":""Euro Sign"",""😀"":""Emoji"",""דּ"":""Hebrew""}"
+  transform "{""€"":""Euro Sign"",""\r"":""Carriage Return"",""דּ"":""Hebrew"",""1"":""One"",""😀"":""Emoji"",""\u0080"":""Control"",""ö"":""Latin""}"
+  = transform "{""\r"":""Carriage Return"",""1"":""One"",""\u0080"":""Control"",""ö"":""Latin"",""€"":""Euro Sign"",""😀"":""Emoji"",""דּ"":""Hebrew""}"
   /\ transform "[1E21, 1e-7, -0, 1.50, 0.000001]" = TOk "[1e+21,1e-7,0,1.5,0.000001]".
 Proof. vm_compute. split; reflexivity. Qed.
